@@ -123,7 +123,22 @@ pub fn judge_log(x: [f64; 2], b: [f64; 2]) -> Verdict {
     }
 }
 
+pub fn hist_judge(c: &crate::hist::HCall, l: Option<&mut Local>) -> Verdict {
+    use crate::api::Op;
+    match c.as_op() {
+        Some(Op::ln) => judge1(0, c.a, l),
+        Some(Op::log2) => judge1(1, c.a, l),
+        Some(Op::log10) => judge1(2, c.a, l),
+        Some(Op::ln_1p) => judge1(3, c.a, l),
+        Some(Op::log) => judge_log(c.a, c.b),
+        _ => Verdict::Skip,
+    }
+}
+
 pub fn replay(call: &str, _clause: &str, args: &[u64]) -> Verdict {
+    if call == "hist" {
+        return crate::hist::replay(args, &hist_judge);
+    }
     let x = [f64::from_bits(args[0]), f64::from_bits(args[1])];
     match call {
         "ln" => judge1(0, x, None),
@@ -365,5 +380,13 @@ pub fn run(r: &mut Runner) {
                 rec.record(l, (9u64 << 55) + 2 * i as u64 + 1, judge_log(b, a));
             }
         });
+    }
+    {
+        use crate::api::Op;
+        let bases: Vec<[f64; 2]> = vec![[1.001, 0.0], [3.0, 1e-17], [1e10, 0.0], [0.37, -1e-18], [81.0, 0.0]];
+        let mut groups = crate::hist::unary_groups(&[Op::ln, Op::log10], &bases, [7.5, 0.0]);
+        groups.extend(crate::hist::unary_groups(&[Op::log2, Op::ln_1p], &[[0.5, 1e-18], [5.0, 0.0]], [7.5, 0.0]));
+        groups.extend(crate::hist::binary_groups(&[Op::log], &[([81.0, 0.0], [3.0, 1e-17]), ([100.0, 1e-15], [10.0, 0.0]), ([7.0, 0.0], [2.0, -1e-17])]));
+        crate::hist::explore(r, "histories: ln/log2/log10/ln_1p/log", &groups, 3, &hist_judge, 14u64 << 55);
     }
 }
